@@ -36,8 +36,10 @@ ASSUMPTIONS = ["the fresh object is configured in the order set_circuit, set_cut
                "floating point: absolute tolerance 1e-9 (MPS: 1e-7)",
                "a raising mutator ends a history (the object may be half-updated)"]
 EXPLANATION = ("coherence of the cached state with the configuration is proved by invariant induction over all "
-               "histories for the repaired SLOS machine and the keyed caches; the faithful SLOS machine and the MPS "
-               "bond dimension are refuted by witnesses that replay on /repo")
+               "histories for the SLOS machine of the current code ((fixA, fixB) = (true, true), /repo 1c6530fa), the "
+               "keyed caches, the MPS bond dimension (3d5f407f) and the Simulator leftover mask (bc7ab4f9); the witnesses "
+               "of the code before those commits are _old_code theorems and regression histories of this driver; still "
+               "refuted: vacuum input first under a mask with an explicit n (crash), Processor default filter")
 
 WORKER = os.path.join(os.path.dirname(os.path.abspath(__file__)), "c05_worker.py")
 TOL = 1e-9
@@ -475,9 +477,13 @@ def slos_model_steps(ctx, hists, circs, fix):
 
 
 # ------------------------------------------------------------------------------------------------ classification
-def slos_signature(hstep, fstep, cfg):
+def slos_signature(hstep, fstep, cfg, hist=()):
     under = "under-mask" if cfg.mask is not None else "no-mask"
     if hstep["c"] == "crash":
+        vacuum_first = any((op[0] == "in" and sum(op[1]) == 0) or
+                           (op[0] == "q" and op[1] == "allprob_in" and sum(op[2]) == 0) for op in hist)
+        if vacuum_first and cfg.mask is not None and cfg.mask[1]:
+            return "slos-crash-vacuum-input-first-under-mask-with-explicit-n"
         return f"slos-crash-levels-of-another-mask-instance-{under}"
     if hstep["c"] == "err" and fstep["c"] == "ok":
         if hstep.get("e") == "KeyError":
@@ -561,8 +567,9 @@ def check_backend_stream(ctx, name, circs, hists, stream, with_model):
     for k, r in zip(keys, fres):
         if len(r) < len(fresh_req[k]):
             fresh[k] = {"c": r[-1]["c"] if r and r[-1]["c"] == "crash" else "err"}
-    model = slos_model_steps(ctx, hists, circs, 0) if with_model else None
-    repaired = slos_model_steps(ctx, hists, circs, 1) if with_model else None
+    # the code as it is now = the machine with both repairs (/repo commit 1c6530fa); 0 = the code before it
+    model = slos_model_steps(ctx, hists, circs, 1) if with_model else None
+    repaired = model
 
     def fails_like(sig):
         def f(cands):
@@ -586,7 +593,7 @@ def check_backend_stream(ctx, name, circs, hists, stream, with_model):
                 fs = fr[-1] if len(fr) == len(fh) else {"c": "err"}
                 if same_step(hs, fs, tol):
                     continue
-                s2 = slos_signature(hs, fs, c2) if name == "SLOS" else (
+                s2 = slos_signature(hs, fs, c2, cand) if name == "SLOS" else (
                     "mps-cutoff-persists" if name == "MPS" and hs["c"] == "ok" and fs["c"] == "ok"
                     else generic_signature(name.lower(), hs, fs))
                 if s2 == sig:
@@ -607,7 +614,7 @@ def check_backend_stream(ctx, name, circs, hists, stream, with_model):
         if not same_step(hs, fs, tol):
             cfg = BCfg()
             cfg.circ, cfg.mask, cfg.cutoff, cfg.inp = cfgt
-            sig = slos_signature(hs, fs, cfg) if name == "SLOS" else (
+            sig = slos_signature(hs, fs, cfg, h[:k + 1]) if name == "SLOS" else (
                 "mps-cutoff-persists" if name == "MPS" and hs["c"] == "ok" and fs["c"] == "ok"
                 else generic_signature(name.lower(), hs, fs))
             ctx.count(f"{name}.differs-from-fresh")
@@ -758,7 +765,7 @@ def check_mps_cutoff(ctx, circs, hists, res, reported):
             else:
                 mp.append(None); continue
             mp.append(len(ops) - 1)
-        reqs.append((502, [0, ops]))
+        reqs.append((502, [1, ops]))      # 1 = the code as it is now (/repo commit 3d5f407f), 0 = before it
         maps.append(mp)
     outs = ctx.model.run(reqs)
     for h, steps, mp, out in zip(hists, res, maps, outs):
@@ -1093,7 +1100,8 @@ def processor_streams(ctx, rng, n, backend="SLOS"):
 
 # ------------------------------------------------------------------------------------------------ corpus
 def corpus(circs4):
-    """Histories of the witnesses of coq/Props/C05.v and DESIGN.md section 9 (rows 5, 16, 17): regression cases."""
+    """Histories of the witnesses of coq/Props/C05.v and DESIGN.md section 9 (rows 5, 16, 17): regression guards
+    (repaired in /repo by 1c6530fa, 3d5f407f: they must agree with a fresh engine now)."""
     return {
         "SLOS": [
             [["circ", 0], ["mask", ["*1"], None], ["in", [1, 0]], ["in", [1, 1]], ["q", "amp", [1, 1]], ["q", "dist"]],
@@ -1102,6 +1110,10 @@ def corpus(circs4):
             [["circ", 0], ["mask", ["2*"], None], ["in", [1, 0]], ["in", [1, 1]], ["q", "dist"]],
             [["circ", 2], ["mask", ["011"], None], ["in", [0, 0, 1]], ["q", "dist"], ["in", [1, 1, 0]], ["q", "dist"]],
             [["circ", 5], ["mask", ["**1*"], None], ["in", [1, 1, 0, 0]], ["in", [1, 1, 1, 0]], ["q", "dist"]],
+            # still open: vacuum input first under a mask with an explicit n that needs more photons
+            [["circ", 0], ["mask", ["2*"], 1], ["in", [0, 0]], ["in", [1, 0]], ["q", "dist"]],
+            # same with mask_n None: the mask instance changes, the state space is rebuilt (no crash since 1c6530fa)
+            [["circ", 0], ["mask", ["2*"], None], ["in", [0, 0]], ["in", [1, 0]], ["q", "dist"]],
         ],
         "MPS": [
             [["circ", 6], ["in", [1, 1, 1, 0]], ["in", [0, 0, 2, 1]], ["in", [0, 1, 1, 0]], ["q", "dist"]],
